@@ -1,6 +1,8 @@
 (* Props/C01.v — property C01: write then read returns exactly what was written.
    Theorems over Model/Writer.v + Model/Reader.v land here as they are proved (DESIGN.md 8/C01). *)
-From ZipV Require Import Base.Bytes Base.Outcome Model.Readers Model.Reader Model.Writer Proofs.WriterProofs.
+From Coq Require Import ZArith.
+From ZipV Require Import Base.Bytes Base.Outcome Gen.GenLib Gen.SpecGen Gen.CompressionGen Gen.TypesGen Spec.Utf8 Model.Dos Model.Cp437
+     Model.Readers Model.Reader Model.Writer Proofs.WriterProofs Proofs.Utf8Proofs Proofs.TextProofs Proofs.CentralRoundtrip.
 Open Scope N_scope.
 
 (* the ZIP64 part of a central record written by the writer is exactly what the reader's extra-field walk
@@ -9,3 +11,40 @@ Theorem C01_central_sizes_roundtrip : forall us cs hs, us < 2 ^ 64 -> cs < 2 ^ 6
   read_back_sizes us cs hs = (us, cs, hs).
 Proof. exact central_sizes_roundtrip. Qed.
 Print Assumptions C01_central_sizes_roundtrip.
+
+(* ---------- record level: every central directory record the writer can emit is read back exactly.
+   For every record f the writer keeps (any system/made-by byte, any method code the writer can carry, any CRC,
+   attributes, sizes and offset below 2^64 -- with or without ZIP64 block --, any name up to 65535 bytes, any user
+   extra data that passed validate_extra_data), rendered by central_header_chunks between ARBITRARY surrounding bytes,
+   the reader model's parse_central (fixed fields, name, extra field walk incl. the ZIP64 block and the skipping of
+   the user records, AES check, offset adjustment) returns exactly [decoded f]: same system, made-by, encryption
+   flag, method, CRC, 64-bit sizes, offset (+ archive offset), attributes, raw name, extra bytes; the name decoded
+   by the flag the writer sets; the time as unpacked from the packed DOS words; and the position just behind the
+   record, so directory walks stay in step.  (Used by C01 C02 C03 C08 C13 C14 C17.) *)
+Theorem C01_central_record_roundtrip : forall f ao cs pre post, wf_central f ao -> central_header_chunks f = Ok cs ->
+  exists d dt, DateTime_datepart (w_time f) = Some d /\ DateTime_from_msdos d (DateTime_timepart (w_time f)) = Some dt /\
+    parse_central (pre ++ concat cs ++ post) (len pre) ao = Ok (decoded f dt ao (len pre), len pre + len (concat cs)).
+Proof. exact central_roundtrip. Qed.
+Print Assumptions C01_central_record_roundtrip.
+
+(* and the name comes back as the string that was given: the writer's flag choice + the reader's decoding *)
+Theorem C01_name_roundtrip : forall cps, forallb scalar cps = true ->
+  let name := utf8_encode cps in decode_text (negb (is_ascii name)) name = name.
+Proof. exact writer_name_roundtrip. Qed.
+Print Assumptions C01_name_roundtrip.
+
+(* non-vacuity: a record as start_file creates it satisfies the well-formedness premise and renders *)
+Example C01_wf_example :
+  let f := {| w_system := 3; w_made_by := 46; w_encrypted := false; w_method := CompressionMethod_Deflated; w_level := None;
+              w_time := DateTime_default; w_crc := 305419896; w_csize := 4294967296; w_usize := 5000000000; w_name := [x61; x2f; x62];
+              w_extra := []; w_header_start := 4294967295; w_data_start := 0; w_ext_attr := 2175008768; w_large := true |} in
+  wf_central f 0 /\ exists cs, central_header_chunks f = Ok cs.
+Proof.
+  cbv zeta. split.
+  - constructor; cbn [w_system w_made_by w_method w_time w_crc w_ext_attr w_usize w_csize w_header_start w_name w_extra];
+      first [ cbn; lia
+            | unfold method_ok; cbn; repeat split; try discriminate; lia
+            | intros d H; vm_compute in H; injection H as <-; lia
+            | exists 0%nat; reflexivity ].
+  - eexists. reflexivity.
+Qed.
